@@ -453,7 +453,10 @@ def clone_probe(obj, snapshot, deep_equal=True, collect=False):
     import copy
     import gc
     import pickle
-    before = snapshot(obj)
+    try:
+        before = snapshot(obj)
+    except Exception as e:  # noqa: loud, not skipped — on the unchanged code every object the harness hands in can be read
+        return f"the object cannot be read: {err_name(e)}: {e}"
     makers = [("copy.copy", lambda: copy.copy(obj)), ("copy.deepcopy", lambda: copy.deepcopy(obj)),
               ("pickle round trip", lambda: pickle.loads(pickle.dumps(obj)))]
     for name, make in makers:
